@@ -1,7 +1,9 @@
 // go2v — a translator from a subset of Go to Gallina (see gen/TRANSLATOR.md).
 //
 // trans.go      : package loading + type checking (go/types with a stub importer), type mapping, struct -> Record,
-//                 call graph / effect analysis (does a method write its receiver? does a function loop?), emission.
+//
+//	call graph / effect analysis (does a method write its receiver? does a function loop?), emission.
+//
 // trans_expr.go : expressions (continuation-passing: every sub-expression that can panic becomes a bind).
 // trans_stmt.go : statements, join points, loops.
 //
@@ -21,12 +23,19 @@ import (
 
 // TransSpec says what to translate.
 type TransSpec struct {
-	Dir     string   // package directory below the repository root
-	Structs []string // struct types that become Records
-	Funcs   []string // "Recv.Name" or "Name"; callees inside the package are pulled in automatically
-	// InOut (opt-in, see "In-out slice parameters" in TRANSLATOR.md): a slice parameter that a function only indexes,
-	// measures, ranges over or passes on in the same way, and whose elements it writes, is returned to the caller
-	// (after the receiver, before the results) and the caller rebinds the variable / field it passed.
+	Dir       string                   // package directory below the repository root
+	Structs   []string                 // struct types that become Records
+	Funcs     []string                 // "Recv.Name" or "Name"; callees inside the package are pulled in automatically
+	Extern    []string                 // [seq] functions translated by another area (its Gen file is imported by the caller's header): analysed, not emitted
+	Expect    map[string][]ExpectField // [stable] struct -> its pristine fields (name, Go type) in order: stable Record names (trans_stable.go)
+	TimedTail []string                 // [seq] functions whose body is translated up to the first statement using package time (trans_seq.go)
+	// [ext:T20] (gen/trans_ext20.go) -------------------------------------------------------------------------------
+	Globals    []string // package-level variables treated as explicit state: read -> extra parameter, written -> extra result
+	WrapSigned bool     // int8/16/32/64 wrap around (swrap N) instead of being unbounded; `int` stays unbounded
+	Frags      []FragSpec
+	// [func] (gen/trans_func.go) InOut (opt-in, see "In-out slice parameters" in TRANSLATOR.md): a slice parameter that a
+	// function only indexes, measures, ranges over or passes on in the same way, and whose elements it writes, is returned
+	// to the caller (after the receiver, before the results) and the caller rebinds the variable / field it passed.
 	InOut bool
 }
 
@@ -41,15 +50,21 @@ const (
 	kElem               // a type parameter -> Z, zero value 0
 	kSlice              // []int-like / []T -> list Z
 	kStruct             // a translated struct (or a pointer to it) -> its Record
-	kFunc               // a function-typed parameter / field (trans_func.go) -> a Gallina function
+	kPlace              // [seq] h := &s[i], s a slice of translated structs -> the index (trans_seq.go)
+	kErr                // [ext:T20] error -> Z: nil = 0, a sentinel `var ErrX = errors.New(..)` = a positive code
+	kFunc               // [func] a function-typed parameter / field (trans_func.go) -> a Gallina function
 )
 
 type gtype struct {
-	k    kind
-	bits int
-	st   *structInfo
-	ptr  bool
-	fn   *funcSig // kFunc
+	k     kind
+	bits  int
+	st    *structInfo
+	ptr   bool
+	elem  *structInfo // [seq] kSlice: the element struct of a []S (nil: list Z)
+	str   bool        // [ext:T20] kSlice that is a Go string (immutable bytes)
+	arr   int64       // [ext:T20] kSlice that is a Go array [arr]T (isArr)
+	isArr bool
+	fn    *funcSig // [func] kFunc
 }
 
 func (g gtype) coq() string {
@@ -57,6 +72,9 @@ func (g gtype) coq() string {
 	case kBool:
 		return "bool"
 	case kSlice:
+		if g.elem != nil { // [seq]
+			return "list " + g.elem.name
+		}
 		return "list Z"
 	case kStruct:
 		return g.st.name
@@ -70,6 +88,9 @@ func (g gtype) zero() string {
 	case kBool:
 		return "false"
 	case kSlice:
+		if g.isArr { // [ext:T20]
+			return fmt.Sprintf("(repeat 0 %d)", g.arr)
+		}
 		return "[]"
 	case kStruct:
 		return "zero_" + g.st.name
@@ -80,10 +101,11 @@ func (g gtype) zero() string {
 }
 
 type structInfo struct {
-	name   string
-	obj    *types.TypeName
-	fields []string
-	ftypes []gtype
+	name    string
+	obj     *types.TypeName
+	fields  []string
+	ftypes  []gtype
+	goNames []string // [stable] the Go name of each field (fields: the emitted names), same order
 }
 
 type funcInfo struct {
@@ -98,8 +120,13 @@ type funcInfo struct {
 	loops   bool // contains a loop (directly or through calls): takes `fuel`
 	callees map[*funcInfo]bool
 	done    bool
-	noesc   []bool // per parameter (trans_func.go): a slice the function neither keeps, reslices, returns nor reassigns
-	inout   []bool // per parameter: noesc and written in place (directly or through calls): returned to the caller
+	// [ext:T20]
+	greads, gwrites map[*globalInfo]bool // package-level state read / written (directly or through calls)
+	ignoredRecv     bool                 // a receiver of an untranslatable type that the body never mentions
+	frag            *fragInfo            // a loop fragment of a function instead of a whole function
+	// [func] (trans_func.go)
+	noesc []bool // per parameter: a slice the function neither keeps, reslices, returns nor reassigns
+	inout []bool // per parameter: noesc and written in place (directly or through calls): returned to the caller
 }
 
 type Translator struct {
@@ -111,13 +138,23 @@ type Translator struct {
 	byName  map[string]*ast.FuncDecl
 	order   []*funcInfo
 	global  map[string]bool // Coq names that locals must not shadow
-	inOut   bool            // TransSpec.InOut
+	seq     *seqState       // [seq] sequential reading of atomics, places, timed tails (trans_seq.go)
+	ext20                   // [ext:T20] state of gen/trans_ext20.go
+	inOut   bool            // [func] TransSpec.InOut
 }
 
 type stubImporter struct{}
 
 func (stubImporter) Import(path string) (*types.Package, error) {
+	if p := seqStubPackage(path); p != nil { // [seq] sync/atomic, runtime, time: typed stubs
+		return p, nil
+	}
 	p := types.NewPackage(path, filepath.Base(path))
+	if path == "errors" { // [ext:T20] errors.New has a type, so that `var ErrX = errors.New("..")` and `err == ErrX` are typed
+		sig := types.NewSignatureType(nil, nil, nil, types.NewTuple(types.NewVar(token.NoPos, p, "text", types.Typ[types.String])),
+			types.NewTuple(types.NewVar(token.NoPos, p, "", types.Universe.Lookup("error").Type())), false)
+		p.Scope().Insert(types.NewFunc(token.NoPos, p, "New", sig))
+	}
 	p.MarkComplete()
 	return p, nil
 }
@@ -148,6 +185,9 @@ func (t *Translator) typeOf(ty types.Type, n ast.Node) gtype {
 	}
 	switch x := ty.(type) {
 	case *types.Basic:
+		if g, ok := t.basic20(x); ok { // [ext:T20] string; intN when TransSpec.WrapSigned
+			return g
+		}
 		switch x.Kind() {
 		case types.Int, types.Int64, types.UntypedInt, types.UntypedRune:
 			return gtype{k: kInt}
@@ -164,12 +204,20 @@ func (t *Translator) typeOf(ty types.Type, n ast.Node) gtype {
 		case types.UntypedNil:
 			return gtype{k: kSlice}
 		}
+	case *types.Array: // [ext:T20]
+		e := t.typeOf(x.Elem(), n)
+		if (e.k == kInt || e.k == kUint) && x.Len() >= 0 {
+			return gtype{k: kSlice, isArr: true, arr: x.Len()}
+		}
 	case *types.TypeParam:
 		return gtype{k: kElem}
 	case *types.Slice:
 		e := t.typeOf(x.Elem(), n)
 		if e.k == kInt || e.k == kUint || e.k == kElem {
 			return gtype{k: kSlice}
+		}
+		if e.k == kStruct && !e.ptr { // [seq] []S for a translated struct S
+			return gtype{k: kSlice, elem: e.st}
 		}
 	case *types.Pointer:
 		if nm, ok := x.Elem().(*types.Named); ok {
@@ -184,6 +232,9 @@ func (t *Translator) typeOf(ty types.Type, n ast.Node) gtype {
 	case *types.Named:
 		if si := t.structs[x.Origin().Obj()]; si != nil {
 			return gtype{k: kStruct, st: si}
+		}
+		if x.Obj().Pkg() == nil && x.Obj().Name() == "error" { // [ext:T20]
+			return gtype{k: kErr}
 		}
 		if _, ok := x.Underlying().(*types.Basic); ok {
 			return t.typeOf(x.Underlying(), n)
@@ -206,7 +257,8 @@ func (t *Translator) exprType(e ast.Expr) gtype {
 var coqReserved = strings.Fields(`as at cofix else end exists exists2 fix for forall fun if IF in let match mod Prop return Set then
  Type using where with Z nat list bool unit option true false tt fst snd inl inr negb andb orb xorb eqb repeat length app
  fuel bind Ret Panic NoFuel lift lift_fuel mmap zlen wrap m_rem m_quot m_shl m_shr m_get m_set m_slice m_make m_make_cap
- m_copy copy_all gocopy gorem goquot get_at set_at slice upd while ctl Next Break Return M Some None S O`)
+ m_copy copy_all gocopy gorem goquot get_at set_at slice upd while ctl Next Break Return M Some None S O
+ swrap str_of_byte`)
 
 func funcKey(fd *ast.FuncDecl) string {
 	n := fd.Name.Name
@@ -255,9 +307,15 @@ func Translate(repo string, spec TransSpec) (out string, err error) {
 	for _, w := range coqReserved {
 		t.global[w] = true
 	}
+	t.seqInit(spec, tpkg, p.Files) // [seq]
+	t.setup20(p, tpkg, spec)       // [ext:T20]
 	for _, f := range p.Files {
 		for _, d := range f.Decls {
 			if fd, ok := d.(*ast.FuncDecl); ok && fd.Body != nil {
+				if fd.Recv == nil && fd.Name.Name == "init" { // [ext:T20] several init() may exist: keyed by the global they assign
+					t.keyInit20(fd)
+					continue
+				}
 				t.byName[funcKey(fd)] = fd
 			}
 		}
@@ -293,6 +351,21 @@ func Translate(repo string, spec TransSpec) (out string, err error) {
 			}
 			si.fields = append(si.fields, f.Name())
 			si.ftypes = append(si.ftypes, ft)
+			si.goNames = append(si.goNames, f.Name())
+		}
+		{ // [stable] emit the expected names in the expected order when only names / order changed
+			var tys []string
+			for i := 0; i < st.NumFields(); i++ {
+				tys = append(tys, fieldTypeString(st.Field(i).Type()))
+			}
+			if order, names, ok := stableFields(si.goNames, tys, spec.Expect[sn]); ok {
+				var gn []string
+				var ft []gtype
+				for _, j := range order {
+					gn, ft = append(gn, si.goNames[j]), append(ft, si.ftypes[j])
+				}
+				si.fields, si.goNames, si.ftypes = names, gn, ft
+			}
 		}
 		t.global[sn], t.global["mk"+sn], t.global["zero_"+sn] = true, true, true
 		for _, f := range si.fields {
@@ -306,19 +379,26 @@ func Translate(repo string, spec TransSpec) (out string, err error) {
 			return "", fmt.Errorf("function %s not found in %s (or it has no body)", fn, spec.Dir)
 		}
 	}
+	t.addFrags20(spec) // [ext:T20]
 	t.analyse()
+	var fb strings.Builder // [ext:T20] functions first (they register the constants they use), constants emitted before them
 	for _, fi := range t.order {
-		sb.WriteString("\n" + t.emitFunc(fi))
+		if t.seq.extern[fi.goName] { // [seq] emitted by another area
+			continue
+		}
+		fb.WriteString("\n" + t.emitFunc(fi))
 		// proofs unfold generated definitions through this hint database, so that a helper function that appears
 		// in the source later is unfolded without touching the proof scripts
-		fmt.Fprintf(&sb, "#[export] Hint Unfold %s : go2v.\n", fi.name)
+		fmt.Fprintf(&fb, "#[export] Hint Unfold %s : go2v.\n", fi.name)
 	}
+	sb.WriteString(t.consts20())
+	sb.WriteString(fb.String())
 	return sb.String(), nil
 }
 
 func (si *structInfo) emit() string {
 	var b strings.Builder
-	fmt.Fprintf(&b, "\n(* type %s struct *)\nRecord %s : Type := mk%s {", si.name, si.name, si.name)
+	fmt.Fprintf(&b, "\n(* type %s struct%s *)\nRecord %s : Type := mk%s {", si.name, si.renameNote(), si.name, si.name)
 	for i, f := range si.fields {
 		if i > 0 {
 			b.WriteString(";")
@@ -366,7 +446,7 @@ func (t *Translator) addFunc(key string) *funcInfo {
 	if fi := t.funcs[obj]; fi != nil {
 		return fi
 	}
-	fi := &funcInfo{decl: fd, obj: obj, goName: key, name: "g_" + strings.ReplaceAll(key, ".", "_"), callees: map[*funcInfo]bool{}}
+	fi := &funcInfo{decl: fd, obj: obj, goName: key, name: "g_" + strings.NewReplacer(".", "_", ":", "_").Replace(key), callees: map[*funcInfo]bool{}}
 	t.funcs[obj] = fi
 	t.global[fi.name] = true
 	sig := obj.Type().(*types.Signature)
@@ -374,10 +454,12 @@ func (t *Translator) addFunc(key string) *funcInfo {
 		t.fail(fd, "variadic function %s", key)
 	}
 	if r := sig.Recv(); r != nil {
-		fi.recv = r
-		fi.recvT = t.typeOf(r.Type(), fd)
-		if fi.recvT.k != kStruct {
-			t.fail(fd, "receiver type %s", r.Type())
+		if !t.recv20(fi, r) { // [ext:T20] value receiver of a named integer type; unused receiver of an untranslatable type
+			fi.recv = r
+			fi.recvT = t.typeOf(r.Type(), fd)
+			if fi.recvT.k != kStruct {
+				t.fail(fd, "receiver type %s", r.Type())
+			}
 		}
 	}
 	for i := 0; i < sig.Params().Len(); i++ {
@@ -418,7 +500,7 @@ func (t *Translator) calleeOf(call *ast.CallExpr) (*types.Func, ast.Expr) {
 		}
 	case *ast.SelectorExpr:
 		if sel := t.info.Selections[f]; sel != nil && sel.Kind() == types.MethodVal {
-			if fn, ok := sel.Obj().(*types.Func); ok {
+			if fn, ok := sel.Obj().(*types.Func); ok && (t.seq == nil || fn.Pkg() == t.seq.pkg) { // [seq] not methods of stub packages
 				return fn.Origin(), f.X
 			}
 		}
@@ -472,6 +554,7 @@ func (t *Translator) assigned(n ast.Node, set map[types.Object]bool) {
 		return
 	}
 	ast.Inspect(n, func(m ast.Node) bool {
+		t.seqAssigned(m, set) // [seq] writes through h := &s[i] and atomic stores
 		switch x := m.(type) {
 		case *ast.AssignStmt:
 			for _, l := range x.Lhs {
@@ -506,9 +589,16 @@ func (t *Translator) assigned(n ast.Node, set map[types.Object]bool) {
 					}
 				}
 			}
-			for _, a := range t.writtenArgs(x) { // in-out slice arguments (trans_func.go)
+			for _, a := range t.writtenArgs(x) { // [func] in-out slice arguments (trans_func.go)
 				if o, _ := t.rootObj(a); o != nil {
 					set[o] = true
+				}
+			}
+			if fn, _ := t.calleeOf(x); fn != nil { // [ext:T20] package-level state written by the callee
+				if fi := t.funcs[fn]; fi != nil {
+					for g := range fi.gwrites {
+						set[g.obj] = true
+					}
 				}
 			}
 		}
@@ -543,7 +633,7 @@ func (t *Translator) analyse() {
 		}
 		for _, fi := range todo {
 			seen[fi] = true
-			ast.Inspect(fi.decl.Body, func(m ast.Node) bool {
+			ast.Inspect(t.body(fi), func(m ast.Node) bool { // [seq] t.body: without a timed tail
 				if c, ok := m.(*ast.CallExpr); ok {
 					if fn, _ := t.calleeOf(c); fn != nil {
 						fi.callees[t.funcFor(fn, c)] = true
@@ -556,7 +646,7 @@ func (t *Translator) analyse() {
 				}
 				return true
 			})
-			fi.loops = hasLoop(fi.decl.Body)
+			fi.loops = hasLoop(t.body(fi))
 		}
 	}
 	t.analyseInOut()
@@ -565,7 +655,7 @@ func (t *Translator) analyse() {
 		for _, fi := range t.funcs {
 			if fi.recv != nil && fi.recvT.ptr && !fi.writes {
 				set := map[types.Object]bool{}
-				t.assigned(fi.decl.Body, set)
+				t.assigned(t.body(fi), set)
 				if set[fi.recv] {
 					fi.writes, changed = true, true
 				}
@@ -574,6 +664,9 @@ func (t *Translator) analyse() {
 				if c.loops && !fi.loops {
 					fi.loops, changed = true, true
 				}
+			}
+			if t.globals20(fi) { // [ext:T20]
+				changed = true
 			}
 		}
 	}
